@@ -187,6 +187,19 @@ public class MasaReal {
     }
     return new BigDecimal[] { s, c };
   }
+  // erf z = 2/sqrt(pi) e^(-z^2) sum_n 2^n z^(2n+1) / (2n+1)!!   (all terms of one sign: no cancellation); |z| > 13: +-1 to 70 digits
+  static BigDecimal erfBD(BigDecimal z) {
+    if (z.signum() == 0) return BigDecimal.ZERO;
+    if (z.abs().compareTo(BigDecimal.valueOf(13)) > 0) return BigDecimal.valueOf(z.signum());
+    MathContext XC = new MathContext(80, RoundingMode.HALF_EVEN);
+    BigDecimal z2 = z.multiply(z, XC), term = z, sum = z;
+    for (int n = 1; n < 4000; n++) {
+      term = term.multiply(z2, XC).multiply(TWO, XC).divide(BigDecimal.valueOf(2L * n + 1), XC);
+      sum = sum.add(term, XC);
+      if (term.abs().compareTo(sum.abs().movePointLeft(75)) < 0) break;
+    }
+    return sum.multiply(expBD(z2.negate()), WC).multiply(TWO, WC).divide(PI.sqrt(XC), WC);
+  }
   static BigDecimal powBD(BigDecimal a, BigDecimal b) {
     if (b.signum() == 0) return BigDecimal.ONE;
     // integer exponents: repeated multiplication (any base)
@@ -236,6 +249,7 @@ public class MasaReal {
   public static Value NSinL(final Value a) { Num x = dec(a); if (bad(x) || huge(x)) return nonfinite(); return leaf(sincosBD(x.v)[0]); }
   public static Value NCosL(final Value a) { Num x = dec(a); if (bad(x) || huge(x)) return nonfinite(); return leaf(sincosBD(x.v)[1]); }
   public static Value NExpL(final Value a) { Num x = dec(a); if (bad(x) || huge(x)) return nonfinite(); return leaf(expBD(x.v)); }
+  public static Value NErfL(final Value a) { Num x = dec(a); if (bad(x)) return nonfinite(); return leaf(erfBD(x.v)); }
   public static Value NLogL(final Value a) { Num x = dec(a); if (bad(x) || x.v.signum() <= 0) return nonfinite(); return leaf(logBD(x.v)); }
   public static Value NSqrtL(final Value a) { Num x = dec(a); if (bad(x) || x.v.signum() < 0) return nonfinite(); return leaf(x.v.sqrt(WC)); }
   public static Value NPowL(final Value a, final Value b) {
@@ -271,19 +285,29 @@ public class MasaReal {
 
   static double unit(String p) { return p.equals("ld") ? Math.pow(2, -64) : Math.pow(2, -53); }
   // |got - exp.val| <= 2^k * u_p * exp.mag
+  // the underflow floor: below the smallest normal number of the scalar type (2^-1022, 2^-16382) the relative error model of
+  // floating-point arithmetic does not hold -- a term of size 1e-400 IS 0 in double, correctly -- so an absolute error of
+  // 2^k smallest normal numbers is always within the tolerance
+  static final BigDecimal MIN_D = new BigDecimal(Double.MIN_NORMAL);
+  static final BigDecimal MIN_LD = BigDecimal.ONE.divide(new BigDecimal(BigInteger.ONE.shiftLeft(16382)), WC);
+  static BigDecimal tolBD(double tol, int k, String p) {
+    BigDecimal fl = (p.equals("ld") ? MIN_LD : MIN_D).multiply(new BigDecimal(BigInteger.ONE.shiftLeft(Math.max(k, 0))), WC);
+    BigDecimal t = new BigDecimal(tol);
+    return t.compareTo(fl) < 0 ? fl : t;
+  }
   public static Value NClose(final Value got, final Value exp, final Value k, final Value p) {
     Num g = dec(got), e = dec(exp);
     if (!g.finite || !e.finite) return BoolValue.ValFalse;
     double tol = Math.pow(2, ((IntValue) k).val) * unit(((StringValue) p).val.toString()) * e.m;
     BigDecimal diff = g.v.subtract(e.v, WC).abs();
-    return diff.compareTo(new BigDecimal(tol)) <= 0 ? BoolValue.ValTrue : BoolValue.ValFalse;
+    return diff.compareTo(tolBD(tol, ((IntValue) k).val, ((StringValue) p).val.toString())) <= 0 ? BoolValue.ValTrue : BoolValue.ValFalse;
   }
   // |a - b| <= 2^k * u_p * mag(scale)
   public static Value NCloseTo(final Value a, final Value b, final Value scale, final Value k, final Value p) {
     Num x = dec(a), y = dec(b), s = dec(scale);
     if (!x.finite || !y.finite || !s.finite) return BoolValue.ValFalse;
     double tol = Math.pow(2, ((IntValue) k).val) * unit(((StringValue) p).val.toString()) * s.m;
-    return x.v.subtract(y.v, WC).abs().compareTo(new BigDecimal(tol)) <= 0 ? BoolValue.ValTrue : BoolValue.ValFalse;
+    return x.v.subtract(y.v, WC).abs().compareTo(tolBD(tol, ((IntValue) k).val, ((StringValue) p).val.toString())) <= 0 ? BoolValue.ValTrue : BoolValue.ValFalse;
   }
   // ceil(log2(|got - exp.val| / (u_p * exp.mag))), -99 if the difference is zero, 999 if mag is zero but diff not
   public static Value NErrBits(final Value got, final Value exp, final Value p) {
